@@ -25,14 +25,14 @@ const q = imldsa.VerifQ
 
 // pset is one ML-DSA parameter set with the derived layout of a signature.
 type pset struct {
-	name                   string
-	par                    *imldsa.VerifParams
-	inst                   pmldsa.Instance
-	k, l, omega, lg        int
-	gamma1, gamma2, beta   uint32
-	ctLen, zPoly, zLen     int // c~ bytes; bytes per z polynomial; bytes of the whole z region
-	hLen, sigLen           int
-	pkLen, skLen, zBits    int
+	name                 string
+	par                  *imldsa.VerifParams
+	inst                 pmldsa.Instance
+	k, l, omega, lg      int
+	gamma1, gamma2, beta uint32
+	ctLen, zPoly, zLen   int // c~ bytes; bytes per z polynomial; bytes of the whole z region
+	hLen, sigLen         int
+	pkLen, skLen, zBits  int
 }
 
 func mkPset(name string, par *imldsa.VerifParams, inst pmldsa.Instance) *pset {
@@ -300,13 +300,15 @@ func main() {
 	}
 	seed := *hlib.FlagSeed
 	hlib.InstallTape(seed)
+	if *hlib.FlagReplay != "" {
+		if !hlib.Pre() {
+			replay(o, *hlib.FlagReplay)
+		}
+		return
+	}
 	if hlib.Pre() {
 		// only the section that puts questions to the model runs in the request-collecting phase
 		craftSection(o, seed)
-		return
-	}
-	if *hlib.FlagReplay != "" {
-		replay(o, *hlib.FlagReplay)
 		return
 	}
 	scalarSection(o, seed)
